@@ -880,6 +880,15 @@ class WireCheck(object):
                 do("getattr local", lambda: (p.____conn__, p.__class__, p.____refcount__),
                    [("L", "getattr " + N("____conn__")), ("L", "getattr " + N("__class__")), ("L", "getattr " + N("____refcount__"))])
                 do("getattr deleted", lambda: p.__array_struct__, [("L", "getattr " + N("__array_struct__"))])
+                if kind in ("vec", "list", "dict"):
+                    # EVERY name of LOCAL_ATTRS, read / written / deleted on a real proxy ("M": the model says whether the
+                    # netref object answers itself or ONE request goes out, and which)
+                    from rpyc.core import netref as _nr
+                    for nm in sorted(_nr.LOCAL_ATTRS):
+                        do("getattr local-name " + nm, lambda nm=nm: getattr(p, nm), [("M", "getattr " + N(nm))])
+                        if nm not in ("____conn__", "____id_pack__", "____refcount__"):
+                            do("setattr local-name " + nm, lambda nm=nm: setattr(p, nm, 5), [("M", "setattr %s V I5" % N(nm))])
+                            do("delattr local-name " + nm, lambda nm=nm: delattr(p, nm), [("M", "delattr " + N(nm))])
                 do("setattr", lambda: setattr(p, "tag", ("v", 1)), [("T", "setattr %s %s" % (N("tag"), self.pyval_text(("v", 1), ids)))])
                 do("setattr obj", lambda: setattr(p, "other", q), [("T", "setattr %s RB1" % N("other"))])
                 do("delattr", lambda: delattr(p, "tag"), [("T", "delattr " + N("tag"))])
@@ -2114,7 +2123,11 @@ def correspondence(ctx):
     for k, (whos, got) in enumerate(wc.impl):
         c.evaluations += 1
         outs_k = per_case.get(k, [])
-        want = [(w, canon_req(o)) for w, o in zip(whos, outs_k) if w != "L"]
+        want = []
+        for w, o in zip(whos, outs_k):
+            if w == "L" or (w == "M" and o.startswith("local")):
+                continue        # the model says: served by the netref object itself - no request may be seen
+            want.append(("T" if w == "M" else w, canon_req(o)))
         local_ok = all(o.startswith("local") for w, o in zip(whos, outs_k) if w == "L")
         got_n = [(w, canon_req(t)) for (w, t) in got]
         same = len(want) == len(got_n) and all((ww == "*" or ww == gw) and wt == gt for (ww, wt), (gw, gt) in zip(want, got_n))
